@@ -42,6 +42,11 @@ func pfEditRun(t *testing.T, r *vh.Report, wantDiff bool) ([][]*pfCase, bool) {
 	return rounds, true
 }
 
+// pfAbstractedLiteralEdit: edits that change nothing but a literal of a kind the default policy
+// documents as abstracted (AbstractOtherTypes: floats). They are judged with all literals kept
+// only; the diff (which runs under the default policy) cannot see them by design.
+func pfAbstractedLiteralEdit(op string) bool { return op == "E13-float-literal" }
+
 func TestVerifC03(t *testing.T) {
 	r := vh.New("edits-fingerprint")
 	defer r.Write()
@@ -67,7 +72,7 @@ func TestVerifC03(t *testing.T) {
 			if c.fpKeepOld == c.fpKeepNew {
 				r.Violate("collision/"+c.key+"/keepall", fmt.Sprintf("%s: %s\nThe two functions behave differently (first differing input: %s) but have the SAME fingerprint with all literals kept.\n--- edited source ---\n%s", c.base.ID, c.v.Desc, progfam.InputAt(i), c.v.Src), rp)
 			}
-			if c.fpDefOld == c.fpDefNew {
+			if c.fpDefOld == c.fpDefNew && !pfAbstractedLiteralEdit(c.v.Op) {
 				r.Violate("collision/"+c.key+"/default", fmt.Sprintf("%s: %s\nThe two functions behave differently (first differing input: %s) but have the SAME fingerprint under the default policy (the edit is not a literal-only edit).\n--- edited source ---\n%s", c.base.ID, c.v.Desc, progfam.InputAt(i), c.v.Src), rp)
 			}
 			if len(r.Samples) < 4 && c.v.Site == 2 {
@@ -93,6 +98,10 @@ func TestVerifC04(t *testing.T) {
 			}
 			if c.natBase.Hash == c.natVar.Hash {
 				r.Count("edits_not_observably_different_on_the_table", 1)
+				continue
+			}
+			if pfAbstractedLiteralEdit(c.v.Op) {
+				r.Count("edits_of_policy_abstracted_literals_not_judged", 1)
 				continue
 			}
 			if !c.haveDiff {
